@@ -297,7 +297,11 @@ struct E2 : Engine {
 			// (a node or string that is never given back) accumulates beyond it
 			size_t av = cppcms::impl::process_settings::process_memory->available();
 			if(!c.have_baseline){ c.baseline_avail = av; c.have_baseline = true; }
-			else { c.cnt["leak_checks"]++; if(av + 1024 < c.baseline_avail) c.fail("shared-memory-leak","after clear() " + std::to_string(av) + " bytes of shared memory are free but " + std::to_string(c.baseline_avail) + " were free after the first clear (" + std::to_string(c.baseline_avail - av) + " bytes not given back)"); }
+			// an empty cache must not consider itself short of memory (the cache evicts while the largest free block is below a tenth of the segment): after clear() the
+			// freed blocks have coalesced again - what stays allocated (tables of a few KB) cannot split the segment that far
+			{ size_t mx = cppcms::impl::process_settings::process_memory->max_available(), sz = cppcms::impl::process_settings::process_memory->size(); c.cnt["post_clear_block_checks"]++;
+			  if(mx < sz / 10){ c.fail("empty-cache-short-of-memory","after clear() the largest free block the allocator reports is " + std::to_string(mx) + " bytes of a " + std::to_string(sz) + " byte segment (" + std::to_string(av) + " bytes are free in total): every store would evict"); return; } }
+			if(!c.have_baseline){} else { c.cnt["leak_checks"]++; if(av + 1024 < c.baseline_avail) c.fail("shared-memory-leak","after clear() " + std::to_string(av) + " bytes of shared memory are free but " + std::to_string(c.baseline_avail) + " were free after the first clear (" + std::to_string(c.baseline_avail - av) + " bytes not given back)"); }
 		}
 	}
 	static void final_sweep(Ctx &c,int nkeys_hint){
